@@ -1,3 +1,293 @@
 package eng
 
-func configChild() {}
+import (
+	"bufio"
+	"bytes"
+	"encoding/json"
+	"fmt"
+	"io"
+	"math/rand"
+	"net"
+	"os"
+	"os/exec"
+	"path/filepath"
+	"strings"
+	"syscall"
+	"time"
+
+	"github.com/coredhcp/coredhcp/config"
+
+	"verif/internal/fw"
+	"verif/internal/model"
+)
+
+// E-config (C18): generated YAML files through config.Load in a child process
+// (a panic is a dead process), decided by the grammar model in model/config.go.
+type configCase struct {
+	Seed int64 `json:"seed"`
+	N    int   `json:"n"`
+}
+
+type configEngine struct{}
+
+func init() { register("config", configEngine{}) }
+
+func (configEngine) Gen(rng *rand.Rand, tier string, i int) any {
+	return &configCase{Seed: rng.Int63(), N: 120}
+}
+
+func (configEngine) Decode(raw json.RawMessage) (any, error) {
+	var c configCase
+	err := json.Unmarshal(raw, &c)
+	return &c, err
+}
+
+type confAddr struct {
+	IP   string `json:"ip"`
+	Port int    `json:"port"`
+	Zone string `json:"zone"`
+}
+type confPlug struct {
+	Name string   `json:"name"`
+	Args []string `json:"args"`
+}
+type confSrv struct {
+	Addrs   []confAddr `json:"addrs"`
+	Plugins []confPlug `json:"plugins"`
+}
+type confRes struct {
+	I   int      `json:"i"`
+	Err string   `json:"err,omitempty"`
+	S4  *confSrv `json:"s4,omitempty"`
+	S6  *confSrv `json:"s6,omitempty"`
+}
+
+func configChild() {
+	raw, _ := io.ReadAll(os.Stdin)
+	var docs []string
+	if json.Unmarshal(raw, &docs) != nil {
+		os.Exit(3)
+	}
+	dir, _ := os.MkdirTemp(os.Getenv("VERIF_CHILD_DIR"), "conf")
+	defer os.RemoveAll(dir)
+	out := bufio.NewWriter(os.Stdout)
+	first := 0
+	fmt.Sscanf(os.Getenv("VERIF_CHILD_ARG"), "%d", &first)
+	for i := first; i < len(docs); i++ {
+		fmt.Fprintf(out, "{\"begin\":%d}\n", i)
+		out.Flush()
+		path := filepath.Join(dir, "config.yml")
+		os.WriteFile(path, []byte(docs[i]), 0o644)
+		c, err := config.Load(path)
+		r := confRes{I: i}
+		if err != nil {
+			r.Err = err.Error()
+			if r.Err == "" {
+				r.Err = "(empty error)"
+			}
+		} else {
+			conv := func(s *config.ServerConfig) *confSrv {
+				if s == nil {
+					return nil
+				}
+				o := &confSrv{}
+				for _, a := range s.Addresses {
+					o.Addrs = append(o.Addrs, confAddr{IP: model.CanonIP(a.IP), Port: a.Port, Zone: a.Zone})
+				}
+				for _, p := range s.Plugins {
+					o.Plugins = append(o.Plugins, confPlug{p.Name, p.Args})
+				}
+				return o
+			}
+			r.S4, r.S6 = conv(c.Server4), conv(c.Server6)
+		}
+		b, _ := json.Marshal(r)
+		out.Write(b)
+		out.WriteByte('\n')
+		out.Flush()
+	}
+}
+
+// runConfigChild loads docs[first:] in a child; it returns the results and, if
+// the child died, the index it died on and its stderr.
+func runConfigChild(docs []string, first int, scratch string) (res []confRes, diedAt int, stderr string) {
+	self, _ := os.Executable()
+	raw, _ := json.Marshal(docs)
+	cmd := exec.Command(self)
+	cmd.Env = append(os.Environ(), "VERIF_CHILD=config", "VERIF_CHILD_DIR="+scratch, fmt.Sprintf("VERIF_CHILD_ARG=%d", first), "GOTRACEBACK=all")
+	cmd.Stdin = bytes.NewReader(raw)
+	var eb bytes.Buffer
+	cmd.Stderr = &eb
+	so, _ := cmd.StdoutPipe()
+	if err := cmd.Start(); err != nil {
+		return nil, first, err.Error()
+	}
+	timer := time.AfterFunc(120*time.Second, func() { syscall.Kill(cmd.Process.Pid, syscall.SIGQUIT) })
+	defer timer.Stop()
+	sc := bufio.NewScanner(so)
+	sc.Buffer(make([]byte, 1<<20), 1<<24)
+	cur := -1
+	for sc.Scan() {
+		var p struct {
+			Begin *int `json:"begin"`
+		}
+		if json.Unmarshal(sc.Bytes(), &p) == nil && p.Begin != nil {
+			cur = *p.Begin
+			continue
+		}
+		var r confRes
+		if json.Unmarshal(sc.Bytes(), &r) == nil {
+			res = append(res, r)
+			cur = -1
+		}
+	}
+	if err := cmd.Wait(); err != nil || cur >= 0 {
+		if cur < 0 {
+			cur = first + len(res)
+		}
+		s := eb.String()
+		for _, m := range []string{"panic: ", "fatal error: "} {
+			if i := strings.Index(s, m); i >= 0 {
+				s = s[i:]
+				break
+			}
+		}
+		if len(s) > 3000 {
+			s = s[:3000]
+		}
+		return res, cur, s
+	}
+	return res, -1, ""
+}
+
+func (configEngine) Run(ctx *fw.Ctx, cs any) {
+	c := cs.(*configCase)
+	rng := rand.New(rand.NewSource(c.Seed))
+	// interfaces suitable for multicast listeners, computed here, independently of the loader
+	ifs, err := net.Interfaces()
+	if err != nil {
+		ctx.Inconclusive("config: cannot list interfaces: %v", err)
+		return
+	}
+	var mc4, mc6 []string
+	for _, i := range ifs {
+		if i.Flags&net.FlagMulticast != 0 {
+			mc6 = append(mc6, i.Name)
+			if i.Flags&net.FlagBroadcast != 0 {
+				mc4 = append(mc4, i.Name)
+			}
+		}
+	}
+	if os.Getenv("VERIF_NETNS") != "1" || len(mc4) == 0 {
+		ctx.Inconclusive("config: not inside the private network namespace (interfaces %v)", mc6)
+		return
+	}
+	var docs []*model.ConfDoc
+	var texts []string
+	for i := 0; i < c.N; i++ {
+		d := model.GenConfDoc(rng, mc4, mc6)
+		if rng.Intn(3) == 0 {
+			d = &model.ConfDoc{YAML: model.MutateText(rng, d.YAML), Class: "no-panic", Why: "mutated " + d.Class}
+			for rng.Intn(3) == 0 {
+				d.YAML = model.MutateText(rng, d.YAML)
+			}
+		}
+		docs = append(docs, d)
+		texts = append(texts, d.YAML)
+	}
+	results := map[int]confRes{}
+	first := 0
+	for first < len(texts) {
+		res, diedAt, stderr := runConfigChild(texts, first, ctx.Scratch)
+		for _, r := range res {
+			results[r.I] = r
+		}
+		if diedAt < 0 {
+			break
+		}
+		ctx.Viol("C18", "loader-panics:"+childFrame(stderr), "loading this configuration killed the process (%s):\n%s\n%s", docs[diedAt].Why, clipStr(texts[diedAt], 800), firstLines(stderr, 12))
+		first = diedAt + 1
+	}
+	for i, d := range docs {
+		r, ok := results[i]
+		if !ok {
+			continue
+		}
+		ctx.Eval("C18", 1)
+		ctx.Count("config.class."+d.Class, 1)
+		ctx.Nontrivial("C18", d.Class+"/"+d.YAML)
+		switch d.Class {
+		case "must-reject":
+			ctx.Count("config.reject."+d.Why, 1)
+			if r.Err == "" {
+				ctx.Viol("C18", "accepted:"+d.Why, "this configuration must be rejected (%s) but loaded:\n%s\n-> v4=%+v v6=%+v", d.Why, clipStr(d.YAML, 800), r.S4, r.S6)
+			}
+		case "must-load":
+			if r.Err != "" {
+				ctx.Viol("C18", "rejected-valid", "this configuration is valid but loading failed with %q:\n%s", r.Err, clipStr(d.YAML, 800))
+				continue
+			}
+			for _, pr := range []struct {
+				name string
+				want *model.SrvWant
+				got  *confSrv
+			}{{"server4", d.S4, r.S4}, {"server6", d.S6, r.S6}} {
+				if (pr.want == nil) != (pr.got == nil) {
+					ctx.Viol("C18", "section-presence", "%s: configured=%v loaded=%v\n%s", pr.name, pr.want != nil, pr.got != nil, clipStr(d.YAML, 800))
+					continue
+				}
+				if pr.want == nil {
+					continue
+				}
+				if sig, msg := compareSrv(pr.want, pr.got); sig != "" {
+					ctx.Viol("C18", sig, "%s: %s\n%s", pr.name, msg, clipStr(d.YAML, 800))
+				}
+				ctx.Count("config.listeners_checked", int64(len(pr.want.Addrs)))
+				ctx.Count("config.plugins_checked", int64(len(pr.want.Plugins)))
+			}
+		}
+	}
+	if ctx.WantSample("C18") {
+		for _, d := range docs {
+			if d.Class == "must-load" {
+				ctx.Sample("C18", map[string]any{"class": d.Class, "yaml": d.YAML})
+				break
+			}
+		}
+	}
+}
+
+func clipStr(s string, n int) string {
+	if len(s) > n {
+		return s[:n] + "..."
+	}
+	return s
+}
+
+func compareSrv(w *model.SrvWant, g *confSrv) (string, string) {
+	if len(w.Plugins) != len(g.Plugins) {
+		return "plugin-list", fmt.Sprintf("%d plugins configured, %d loaded: %+v", len(w.Plugins), len(g.Plugins), g.Plugins)
+	}
+	for i := range w.Plugins {
+		if w.Plugins[i].Name != g.Plugins[i].Name {
+			return "plugin-order", fmt.Sprintf("plugin #%d is %q, configured %q", i, g.Plugins[i].Name, w.Plugins[i].Name)
+		}
+		if strings.Join(w.Plugins[i].Args, "\x00") != strings.Join(g.Plugins[i].Args, "\x00") {
+			return "plugin-args", fmt.Sprintf("plugin #%d %s has arguments %q, configured %q", i, g.Plugins[i].Name, g.Plugins[i].Args, w.Plugins[i].Args)
+		}
+	}
+	if len(w.Addrs) != len(g.Addrs) {
+		return "listen-count", fmt.Sprintf("%d listeners expected %+v, %d loaded %+v", len(w.Addrs), w.Addrs, len(g.Addrs), g.Addrs)
+	}
+	for i := range w.Addrs {
+		a, b := w.Addrs[i], g.Addrs[i]
+		wip := a.IP
+		if wip != "" {
+			wip = model.CanonIP(net.ParseIP(a.IP))
+		}
+		if wip != b.IP || a.Port != b.Port || a.Zone != b.Zone {
+			return "listen-address", fmt.Sprintf("listener #%d loaded as {ip=%q port=%d zone=%q}, configured {ip=%q port=%d zone=%q}", i, b.IP, b.Port, b.Zone, wip, a.Port, a.Zone)
+		}
+	}
+	return "", ""
+}
